@@ -94,6 +94,19 @@ def describe(sv: Any, depth: int = 0) -> str:
     return f"{type(sv.instruction).__name__}<{sv.instruction}>" + (f"({a})" if a else "")
 
 
+def _literals(sv: Any) -> List[int]:
+    from spec.native import native_int_lit
+    out: List[int] = []
+    if type(sv).__name__ != "KnownStackValue":
+        return out
+    v = native_int_lit(sv.instruction)
+    if v is not None:
+        out.append(v)
+    for a in sv.args:
+        out += _literals(a)
+    return out
+
+
 def to_teal(sv: Any) -> Optional[List[str]]:
     """Postfix TEAL for a tree without unknown leaves (None otherwise)."""
     if type(sv).__name__ == "UnknownStackValue":
@@ -151,12 +164,28 @@ def make_reifier(base_keys: List[str], self_cls_name: str, value_of_model: Any =
                     continue
                 r = SvReifier(mv, kt, vt, real_key, kind, base, modelval)
                 tree = r.sv(mv.int(svt))
-                members: List[Dict[str, Any]] = [dict() for _ in range(gsz)]
                 fv = value_of_model(mv, vt, kt, modelval) if value_of_model else modelval
-                members[tgt][base] = fv
-                visit = NativeVisit(gsz, gidx, members, opaque=r.opaque)
                 selfobj = self_cls.__new__(self_cls)
                 teal = to_teal(tree)
+                # region representatives around the literals of the tree (the truth is decided natively anyway)
+                variants = [fv]
+                if isinstance(fv, int):
+                    for lit in _literals(tree):
+                        for x in (lit - 1, lit, lit + 1):
+                            if 0 <= x <= 2 ** 64 - 1 and x not in variants:
+                                variants.append(x)
+                    for x in (0, 272000, 272001, 2 ** 64 - 1):
+                        if x not in variants:
+                            variants.append(x)
+                for fvv in variants[1:8]:
+                    mem2: List[Dict[str, Any]] = [dict() for _ in range(gsz)]
+                    mem2[tgt][base] = fvv
+                    vis2 = NativeVisit(gsz, gidx, mem2, opaque=r.opaque)
+                    yield {"args": {"self": selfobj, "key": real_key, "ins_stack_value": tree}, "ghost": {"v": vis2},
+                           "repr": {"key": real_key, "ins_stack_value": describe(tree), "visit": repr(vis2)}, "teal": teal}
+                members: List[Dict[str, Any]] = [dict() for _ in range(gsz)]
+                members[tgt][base] = fv
+                visit = NativeVisit(gsz, gidx, members, opaque=r.opaque)
                 I_ = z3.IntSort()
                 from pyvc.state import initial_heap_array as H_
                 from pyvc.execbase import TYPEOF as TY_
